@@ -1,33 +1,171 @@
 package main
 
 import (
+	"flag"
 	"fmt"
 	"os"
-
-	"golang.org/x/tools/go/packages"
-	"golang.org/x/tools/go/ssa"
-	"golang.org/x/tools/go/ssa/ssautil"
+	"path/filepath"
+	"sort"
+	"strings"
+	"time"
 )
 
+var (
+	repoDir  = "/repo"
+	verifDir = "/verif"
+)
+
+func usage() {
+	fmt.Fprintln(os.Stderr, `usage:
+  vcgen check <property-id> [--thorough] [--repo dir]
+  vcgen func <substring-of-function-key> [--keep] [--repo dir]   debug: verify matching functions
+  vcgen dump <substring>                                        debug: print SSA
+  vcgen list                                                    contracts and their properties`)
+	os.Exit(2)
+}
+
 func main() {
-	cfg := &packages.Config{Mode: packages.LoadAllSyntax, Dir: "/repo", BuildFlags: []string{"-tags=verif"}, Env: append(os.Environ(), "GOFLAGS=-mod=mod", "GOPROXY=off", "GOSUMDB=off", "GOTOOLCHAIN=local")}
-	pkgs, err := packages.Load(cfg, "./...")
-	if err != nil {
-		panic(err)
+	if len(os.Args) < 2 {
+		usage()
 	}
-	prog, spkgs := ssautil.AllPackages(pkgs, ssa.InstantiateGenerics)
-	prog.Build()
-	for _, p := range spkgs {
-		if p == nil {
+	if d := os.Getenv("VERIF_DIR"); d != "" {
+		verifDir = d
+	}
+	cmd := os.Args[1]
+	fs := flag.NewFlagSet(cmd, flag.ExitOnError)
+	thorough := fs.Bool("thorough", false, "thorough mode")
+	keep := fs.Bool("keep", false, "keep query files")
+	repo := fs.String("repo", "/repo", "repository")
+	verbose := fs.Bool("v", false, "verbose")
+	replay := fs.String("replay", "", "replay file")
+	timeout := fs.Int("timeout", 0, "per-query solver timeout in seconds")
+	var pos []string
+	args := os.Args[2:]
+	for len(args) > 0 {
+		if strings.HasPrefix(args[0], "-") {
+			fs.Parse(args)
+			args = fs.Args()
 			continue
 		}
-		fmt.Println(p.Pkg.Path())
+		pos = append(pos, args[0])
+		args = args[1:]
 	}
-	for fn := range ssautil.AllFunctions(prog) {
-		if fn.Pkg != nil && fn.Pkg.Pkg.Path() == "github.com/go-netty/go-netty/utils/pool" || (fn.Origin() != nil) {
-			if fn.Origin() != nil && fn.Origin().Pkg.Pkg.Path() != "github.com/go-netty/go-netty/utils/pool" { continue }
-			fmt.Println("FN", fn.String(), fn.Name(), fn.RelString(nil))
-			if fn.Name() == "Get" || fn.Name()=="New$1" { fn.WriteTo(os.Stdout) }
+	repoDir = *repo
+	switch cmd {
+	case "check":
+		if len(pos) != 1 {
+			usage()
+		}
+		os.Exit(checkProperty(pos[0], *thorough, *verbose, *replay, *timeout, *keep))
+	case "func":
+		if len(pos) != 1 {
+			usage()
+		}
+		os.Exit(debugFunc(pos[0], *keep, *verbose, *timeout))
+	case "dump":
+		ld, err := loadRepo(repoDir, filepath.Join(verifDir, "engine", "contracts"))
+		if err != nil {
+			fmt.Fprintln(os.Stderr, err)
+			os.Exit(2)
+		}
+		var keys []string
+		for k := range ld.fnByKey {
+			if strings.Contains(k, pos[0]) {
+				keys = append(keys, k)
+			}
+		}
+		sort.Strings(keys)
+		for _, k := range keys {
+			for _, fn := range ld.fnByKey[k] {
+				fmt.Println("KEY", k)
+				fn.WriteTo(os.Stdout)
+			}
+		}
+	case "list":
+		ld, err := loadRepo(repoDir, filepath.Join(verifDir, "engine", "contracts"))
+		if err != nil {
+			fmt.Fprintln(os.Stderr, err)
+			os.Exit(2)
+		}
+		for _, k := range ld.cs.Order {
+			c := ld.cs.Funcs[k]
+			fmt.Printf("%-90s assumed=%v inline=%v props=%v\n", k, c.Assumed, c.Inline, c.Props)
+		}
+	default:
+		usage()
+	}
+}
+
+func debugFunc(sub string, keep, verbose bool, timeout int) int {
+	t0 := time.Now()
+	ld, err := loadRepo(repoDir, filepath.Join(verifDir, "engine", "contracts"))
+	if err != nil {
+		fmt.Fprintln(os.Stderr, "engine error:", err)
+		return 2
+	}
+	fmt.Printf("loaded in %.1fs\n", time.Since(t0).Seconds())
+	var results []*FuncResult
+	for _, k := range ld.cs.Order {
+		c := ld.cs.Funcs[k]
+		if c.Assumed || c.Iface || !strings.Contains(k, sub) {
+			continue
+		}
+		if len(ld.fnByKey[k]) == 0 {
+			continue
+		}
+		results = append(results, ld.verifyFunction(c))
+	}
+	for _, l := range ld.cs.Lemmas {
+		if strings.Contains("lemma:"+l.Name, sub) {
+			results = append(results, ld.verifyLemma(l))
 		}
 	}
+	var all []*Obligation
+	rc := 0
+	for _, r := range results {
+		if r.Err != "" {
+			fmt.Printf("ENGINE ERROR in %s: %s\n", r.Key, r.Err)
+			rc = 2
+		}
+		all = append(all, r.Obls...)
+	}
+	if timeout == 0 {
+		timeout = 10
+	}
+	work := filepath.Join(verifDir, ".work", "debug")
+	os.RemoveAll(work)
+	cfg := &SolverCfg{WorkDir: work, Timeout: time.Duration(timeout) * time.Second, Parallel: 16, KeepFiles: keep}
+	stats := &solverStats{byBack: map[string]int{}}
+	solveAll(cfg, all, stats)
+	for _, r := range results {
+		fmt.Printf("== %s (mode %s, %d paths)\n", r.Key, r.Mode, r.Paths)
+		for _, o := range r.Obls {
+			status := "ok  "
+			if !o.Discharged {
+				status = "FAIL"
+				if rc == 0 {
+					rc = 1
+				}
+			}
+			var secs float64
+			for _, q := range o.Queries {
+				secs += q.Secs
+			}
+			fmt.Printf("  %s %-70s q=%d triv=%d %.2fs", status, o.Name, len(o.Queries), o.Trivial, secs)
+			if o.Failed != nil {
+				fmt.Printf("  [%s by %s] %s", o.Failed.Verdict, o.Failed.Solver, o.Failed.Desc)
+			}
+			fmt.Println()
+			if o.Failed != nil && verbose && o.Failed.Model != "" {
+				fmt.Println("     model:", strings.ReplaceAll(o.Failed.Model, "\n", " "))
+			}
+		}
+	}
+	fmt.Printf("queries=%d solver_s=%.1f wall=%.1fs backends=%v\n", stats.queries, stats.secs, time.Since(t0).Seconds(), stats.byBack)
+	return rc
+}
+
+func checkProperty(id string, thorough, verbose bool, replay string, timeout int, keep bool) int {
+	fmt.Fprintln(os.Stderr, "check not built yet")
+	return 2
 }
